@@ -264,7 +264,9 @@ def flow_safety_threshold(prog: Program, rep, RID: str):
     # addition adds as much: a zero excess comes out as 5.55e-17 for values around 0.1 and as 2e-9 .. 7e-9 for values around 1e7.  So neither
     # 0 nor a constant is a valid threshold for "excess is positive"; the tolerance has to scale with the magnitude of the values
     # (math.ulp / spacing / epsilon of the largest value), and may be 0 only in the case that all values are integral.
-    exact_numbers = "Fraction" in " ".join(norm(x) for x in f.node.body)
+    # the arithmetic on the bounds is exact when the readers hand out ints / fractions (not when a Fraction merely occurs somewhere)
+    reader_defs = [fd for fd in ast.walk(f.node) if isinstance(fd, ast.FunctionDef) and fd.name in readers]
+    exact_numbers = bool(reader_defs) and all(any("Fraction(" in norm(r.value) for r in ast.walk(fd) if isinstance(r, ast.Return) and r.value is not None) for fd in reader_defs)
 
     def classify_tolerance(e):
         """'zero' | 'absolute' | 'scaled' | None for a constant / a name defined in this function"""
